@@ -102,6 +102,8 @@ pub struct CaseCx {
   pub notes: BTreeSet<String>,
   /// violations recorded by this context and its scratch copies (lets a long exploration stop early)
   pub viol_count: std::sync::Arc<AtomicUsize>,
+  /// wall-clock cap of the run (thorough tier): explorations stop opening new levels after it
+  pub deadline: Option<Instant>,
 }
 impl CaseCx {
   pub fn new(tier: Tier, seed: u64, check: &'static str, case_key: u64) -> Self {
@@ -117,6 +119,7 @@ impl CaseCx {
       samples: vec![],
       notes: BTreeSet::new(),
       viol_count: std::sync::Arc::new(AtomicUsize::new(0)),
+      deadline: None,
     }
   }
   /// true once enough counterexamples were recorded; explorations stop expanding then
@@ -164,6 +167,7 @@ impl CaseCx {
   pub fn scratch(&self) -> CaseCx {
     let mut c = CaseCx::new(self.tier, self.seed, self.check, self.case_key);
     c.viol_count = self.viol_count.clone();
+    c.deadline = self.deadline;
     c
   }
   pub fn absorb(&mut self, other: CaseCx) {
@@ -266,6 +270,7 @@ fn run_check(spec: &PropSpec, ck: &Check, opt: &Options, deadline: Option<Instan
           let case = &cases[i];
           let ck_key = fnv_str(&format!("{}/{}/{}", spec.id, ck.name, case));
           let mut cx = CaseCx::new(opt.tier, opt.seed, ck.name, ck_key);
+          cx.deadline = deadline;
           cx.entropy(0);
           let r = catch_unwind(AssertUnwindSafe(|| (ck.run)(&mut cx, case)));
           if r.is_err() {
@@ -538,7 +543,7 @@ pub fn run_property(spec: PropSpec, opt: Options) -> i32 {
     "distinct_nontrivial": a.distinct.len(),
     "rule": spec.checks.iter().map(|c| format!("[{}] {}", c.name, c.rule)).collect::<Vec<_>>().join(" || "),
     "samples": a.samples.iter().take(8).collect::<Vec<_>>(),
-    "exhaustive": a.cases_capped == 0,
+    "exhaustive": a.cases_capped == 0 && a.counts.get("bfs_levels_skipped_by_time_cap").copied().unwrap_or(0) == 0,
     "cases_run": a.cases_run,
     "cases_skipped_by_time_cap": a.cases_capped,
     "distinct_outcomes": a.outcomes.len(),
@@ -785,6 +790,13 @@ where
     if base.should_stop() {
       cx.note("exploration stopped early: enough counterexamples recorded");
       break;
+    }
+    if let Some(dl) = cx.deadline {
+      if Instant::now() > dl {
+        cx.count("bfs_levels_skipped_by_time_cap", (max_depth - depth) as u64);
+        cx.note(format!("time cap reached: breadth-first exploration stopped after depth {} of {} (fully covered below)", depth, max_depth));
+        break;
+      }
     }
     let results = par_map(&frontier, |_, (k, s)| {
       let mut sc = base.scratch();
